@@ -41,10 +41,12 @@ struct CRadio {
     rxc_budget: usize,
     rxc_delivered: usize,
     rx_single_calls: usize,
+    /// frames are heard only while waiting for the first window
+    first_wait_only: bool,
 }
 impl CRadio {
     fn new(fail_at: usize, rxc_budget: usize) -> Self {
-        CRadio { calls: 0, fail_at, tx_calls: 0, tx_ok: 0, low_power_calls: 0, rxc_budget, rxc_delivered: 0, rx_single_calls: 0 }
+        CRadio { calls: 0, fail_at, tx_calls: 0, tx_ok: 0, low_power_calls: 0, rxc_budget, rxc_delivered: 0, rx_single_calls: 0, first_wait_only: false }
     }
     fn step(&mut self) -> Result<(), ()> {
         let k = self.calls;
@@ -83,7 +85,7 @@ impl radio::PhyRxTx for CRadio {
     }
     async fn rx_continuous(&mut self, _rx_buf: &mut [u8]) -> Result<(usize, radio::RxQuality), ()> {
         // a frame arrives (or the radio fails) before the timer fires, or nothing arrives: pending
-        if self.rxc_delivered >= self.rxc_budget || !kani::any::<bool>() {
+        if self.rxc_delivered >= self.rxc_budget || (self.first_wait_only && self.rx_single_calls > 0) || !kani::any::<bool>() {
             core::future::poll_fn(|_| Poll::<()>::Pending).await;
         }
         self.rxc_delivered += 1;
@@ -178,7 +180,7 @@ fn reset_ghosts(start: u32) {
     }
 }
 
-//@h id=async_rxc_listen props=C06,C04,C07 tier=quick build=dev-eu868 cost=120 timeout=1800
+//@h id=async_rxc_listen props=C06,C04,C07 tier=quick build=dev-eu868 cost=90 timeout=1800
 //@bounds Device::rxc_listen on a joined Class C device from an arbitrary uplink counter: up to three frames heard, each rejected (NoUpdate), accepted or hitting counter exhaustion; the radio failing at an arbitrary call or not at all
 //@encodes async_device::Device::{rxc_listen, handle_mac_response}, From<mac::Response> for ListenResponse
 //@assumes Mac::{handle_rxc, get_rxc_config} replaced by contract stubs (facts decided by rx_c_* and rx_windows_*); timers immediate; a continuous reception that never delivers is cut (assume false)
@@ -267,59 +269,10 @@ fn stub_handle_rxc_join<const N: usize, const D: usize>(
     Err(mac::Error::NotJoined)
 }
 
-//@h id=async_join_class_c props=C11,C07,C04,C10 tier=quick build=dev-eu868 cost=300 timeout=2400
-//@bounds one Device::join(OTAA) with Class C enabled, fault-free radio: while waiting for each of the two join windows the continuous reception hears at most one frame in total or stays silent until the timer fires, each window times out or receives a frame that is a valid JoinAccept or not: the radio is configured listen (RX2 parameters, continuous), RX1 (bound parameters, single), listen [, listen, RX2, listen] and never put to sleep -- the receive procedure Device::rx_downlink shares with data uplinks; a frame heard while waiting (which cannot be for a device that has no session) has no effect on the attempt; joined iff the MAC saw a valid JoinAccept, else 'no join accept'
-//@encodes async_device::Device::{join, rx_downlink, between_windows (class-c), rx_listen, window_complete, handle_mac_response}, From<mac::Response> for JoinResponse
-//@assumes Mac::{join_otaa, handle_rx, handle_rxc, rx2_complete, get_rxc_config} replaced by contract stubs (join_request_exact, join_accept_*, rxc_not_joined); timers immediate
-#[kani::proof]
-#[kani::stub(Mac::join_otaa, stub_join_otaa_c)]
-#[kani::stub(Mac::handle_rx, stub_handle_rx_join_c)]
-#[kani::stub(Mac::handle_rxc, stub_handle_rxc_join)]
-#[kani::stub(Mac::rx2_complete, stub_rx2_complete_join_c)]
-#[kani::stub(Mac::get_rxc_config, stub_get_rxc_config)]
-#[kani::unwind(4)]
-fn async_join_class_c() {
-    crate::mac::verif_kani_lorawan_device_mac_common::vinit();
-    reset_ghosts(0);
-    unsafe { CJ_STATE.v = 0 };
-    let radio = CRadio::new(usize::MAX, 1);
-    let mut dev: Device<CRadio, MTimer, NoRng, 256, 2> =
-        Device::new(region::Configuration::new(region::Region::EU868), radio, MTimer, NoRng);
-    dev.enable_class_c();
-    let mode = JoinMode::OTAA {
-        deveui: crate::DevEui::from(kani::any::<[u8; 8]>()),
-        appeui: crate::AppEui::from(kani::any::<[u8; 8]>()),
-        appkey: crate::AppKey::from(kani::any::<[u8; 16]>()),
-    };
-    let r = block_on(dev.join(&mode));
-    unsafe {
-        crate::vcheck!(dev.radio.tx_calls == 1, "C11: a join attempt transmits one JoinRequest");
-        match &r {
-            Ok(JoinResponse::JoinSuccess) => crate::vcheck!(CJ_STATE.v == 2, "C11: joined only upon a valid JoinAccept"),
-            Ok(JoinResponse::NoJoinAccept) => crate::vcheck!(CJ_STATE.v == 1 && dev.radio.rx_single_calls == 2, "C11: 'no join accept' only after both windows closed without a valid JoinAccept"),
-            Err(_) => crate::vcheck!(false, "C07/C11: a frame heard on the Class C channel while waiting for the join windows (no radio fault) ended the join attempt with an error instead of having no effect"),
-        }
-        // C10: the sequence of radio configurations of a Class C receive procedure
-        if r.is_ok() {
-            let n = C_LOG.v.1;
-            crate::vcheck!(n == 3 || n == 6, "C10: listen, RX1, listen [, listen, RX2, listen]");
-            crate::vcheck!(log_at(0) == (C_RXC_F.v, 0) && log_at(1) == (CJ_W.v.0, 1) && log_at(2) == (C_RXC_F.v, 0),
-                "C10: continuous listening with the RX2 parameters until RX1, the RX1 window with the parameters bound to the uplink, listening again");
-            if n == 6 {
-                crate::vcheck!(log_at(3) == (C_RXC_F.v, 0) && log_at(4) == (CJ_W.v.1, 1) && log_at(5) == (C_RXC_F.v, 0),
-                    "C10: continuous listening with the RX2 parameters until RX2, the RX2 window with the parameters bound to the uplink, listening again");
-            }
-            crate::vcheck!(dev.radio.low_power_calls == 0, "C10: a Class C device listens between and after the windows instead of sleeping");
-        }
-        kani::cover!(C_RXC_CALLS.v == 1 && dev.radio.rx_single_calls >= 1, "a frame was heard before a join window");
-        kani::cover!(matches!(r, Ok(JoinResponse::JoinSuccess)), "joined");
-    }
-}
-
 // ---- the Class C pieces of a transaction, one call each (the send-level composition with the
 // class-c feature compiled in is the thorough-tier harness async_send_class_c) ---------------------
 
-//@h id=async_between_windows_c props=C06,C07,C10,C04 tier=quick build=dev-eu868 cost=200 timeout=1800
+//@h id=async_between_windows_c props=C06,C07,C10,C04 tier=quick build=dev-eu868 cost=240 timeout=1800
 //@bounds one Device::between_windows(duration) on a joined Class C device, arbitrary duration and uplink counter: up to two frames heard before the timer fires (each rejected, accepted or hitting counter exhaustion) or silence (futures::select decided both ways), the radio failing at an arbitrary call or not at all
 //@encodes async_device::Device::between_windows (class-c: futures::select of PhyRxTx::rx_continuous against Timer::at, rxc_listen_until_timeout), handle_mac_response
 //@assumes Mac::{handle_rxc, get_rxc_config, rx2_complete} replaced by contract stubs; the timer future is ready when polled (it wins the select exactly when the radio stays pending)
@@ -382,5 +335,31 @@ fn async_window_complete_c() {
         }
         crate::vcheck!(r.is_ok() == (dev.radio.fail_at != 0), "C04: the radio's answer is passed on");
         kani::cover!(class_c && r.is_ok(), "class c resumes listening");
+    }
+}
+
+//@h id=async_between_windows_unjoined props=C07,C11,C04 tier=quick build=dev-eu868 cost=240 timeout=1800
+//@bounds one Device::between_windows(duration) with Class C enabled on a device that has no session yet (it is waiting for the windows of its JoinRequest): up to two frames heard before the timer fires or silence, fault-free radio: a frame heard there cannot be for this device, it has no effect and the wait for the join window goes on (Device::join around it: async_join)
+//@encodes async_device::Device::between_windows (class-c), handle_mac_response
+//@assumes Mac::handle_rxc replaced by its contract for a device without a session (NotJoined, nothing changes: decided by rxc_not_joined); Mac::get_rxc_config by its contract stub; timers immediate
+#[kani::proof]
+#[kani::stub(Mac::handle_rxc, stub_handle_rxc_join)]
+#[kani::stub(Mac::get_rxc_config, stub_get_rxc_config)]
+#[kani::stub(Mac::rx2_complete, stub_rx2_complete_join_c)]
+#[kani::unwind(5)]
+fn async_between_windows_unjoined() {
+    crate::mac::verif_kani_lorawan_device_mac_common::vinit();
+    reset_ghosts(0);
+    let radio = CRadio::new(usize::MAX, 2);
+    let mut dev: Device<CRadio, MTimer, NoRng, 256, 2> =
+        Device::new(region::Configuration::new(region::Region::EU868), radio, MTimer, NoRng);
+    dev.enable_class_c();
+    let r = block_on(dev.between_windows(kani::any()));
+    unsafe {
+        crate::vcheck!(r.is_ok(), "C07/C11: a frame heard on the Class C channel while waiting for a join window (no radio fault) ended the wait with an error instead of having no effect");
+        crate::vcheck!(matches!(r, Ok(None)), "C07: nothing is reported for frames heard without a session");
+        crate::vcheck!(dev.radio.tx_calls == 0 && dev.radio.low_power_calls == 0 && C_LOG.v.1 == 1, "C07: frames heard while waiting do not reconfigure the radio");
+        crate::vcheck!(C_RXC_CALLS.v == dev.radio.rxc_delivered as u32, "C07: every frame heard is offered to the MAC and the wait goes on until the timer fires");
+        kani::cover!(r.is_ok() && C_RXC_CALLS.v == 2, "two frames heard while waiting for a join window");
     }
 }
